@@ -249,6 +249,7 @@ class Real:
         self.last_ts = None
         self.kept = []                    # containers exchanged with the library (C12)
         self._shared_ulists = {}
+        self._shared_vlists = {}
         return "ok"
 
     def vname(self, v):
@@ -656,6 +657,9 @@ class Real:
         if op == "nlink":
             vs = [] if toks[1] == "." else [self.pv(t) for t in toks[1].split(",")]
             self.keep(vs)
+            if not self.keep_mode and len(self.L) % 2 == 1:
+                # the caller passes the SAME list object to several constructor calls
+                vs = self._shared_vlists.setdefault(tuple(id(x) for x in vs), vs)
             l = pool.N(vertices=vs)
             return "ok L%d" % self.reg_l(l)
         if op == "setv1":
